@@ -107,6 +107,11 @@ Qed.
 Lemma days_in_le : forall m y, days_in m y <= 31.
 Proof. intros m y. unfold days_in. destruct (Z.eqb m 2); [destruct (leap y); lia|]. destruct (_ || _); lia. Qed.
 
+Ltac ranges t V :=
+  pose proof (v_year t V) as Vy; pose proof (v_mon t V) as Vmo; pose proof (v_day t V) as Vd;
+  pose proof (v_hour t V) as Vh; pose proof (v_min t V) as Vmi; pose proof (v_sec t V) as Vs;
+  pose proof (v_nsec t V) as Vn; pose proof (days_in_le (t_mon t) (t_year t)) as Vdi.
+
 Ltac bools t V :=
   pose proof (v_year t V) as Vy; pose proof (v_mon t V) as Vmo; pose proof (v_day t V) as Vd;
   pose proof (v_hour t V) as Vh; pose proof (v_min t V) as Vmi; pose proof (v_sec t V) as Vs;
@@ -193,4 +198,491 @@ Proof.
     rewrite P. reflexivity.
   - rewrite (L01_reject_2 L0 t V (or_introl eq_refl)), (L01_reject_2 L1 t V (or_intror eq_refl)).
     rewrite (parse_L2 t V Hns). reflexivity.
+Qed.
+
+(* ---------------------------------------------------------------- lines and fields *)
+Fixpoint nocharb (c : ascii) (s : string) : bool :=
+  match s with EmptyString => true | String a r => negb (Ascii.eqb a c) && nocharb c r end.
+
+Lemma split_app : forall c a b, nocharb c a = true -> split_on c (a ++ String c b) = a :: split_on c b.
+Proof.
+  intros c. induction a as [|x a IH]; intros b H.
+  - cbn [append split_on]. rewrite Ascii.eqb_refl. reflexivity.
+  - cbn [nocharb] in H. apply andb_prop in H. destruct H as [H1 H2]. apply negb_true_iff in H1.
+    cbn [append split_on]. rewrite H1. rewrite (IH b H2). reflexivity.
+Qed.
+
+Lemma split_none : forall c a, nocharb c a = true -> split_on c a = [a].
+Proof.
+  intros c. induction a as [|x a IH]; intros H; [reflexivity|].
+  cbn [nocharb] in H. apply andb_prop in H. destruct H as [H1 H2]. apply negb_true_iff in H1.
+  cbn [split_on]. rewrite H1. rewrite (IH H2). reflexivity.
+Qed.
+
+Lemma split_nonempty : forall c s, split_on c s <> [].
+Proof.
+  intros c s. destruct s as [|a r]; cbn [split_on]; [discriminate|].
+  destruct (Ascii.eqb a c); [discriminate|]. destruct (split_on c r); discriminate.
+Qed.
+
+Lemma join_cons : forall c x y l, join c (x :: y :: l) = x ++ String c (join c (y :: l)).
+Proof. reflexivity. Qed.
+
+Lemma join_split : forall c s, join c (split_on c s) = s.
+Proof.
+  intros c. induction s as [|a r IH]; [reflexivity|]. cbn [split_on].
+  pose proof (split_nonempty c r) as N.
+  destruct (split_on c r) as [|p ps] eqn:S; [contradiction|].
+  destruct (Ascii.eqb a c) eqn:E.
+  - apply Ascii.eqb_eq in E. subst a. rewrite join_cons. rewrite IH. reflexivity.
+  - destruct ps as [|q qs].
+    + cbn [join] in *. rewrite IH. reflexivity.
+    + rewrite join_cons in *. cbn [append]. rewrite IH. reflexivity.
+Qed.
+
+Lemma nocharb_app : forall c a b, nocharb c (a ++ b) = nocharb c a && nocharb c b.
+Proof.
+  intros c. induction a as [|x a IH]; intros b; [reflexivity|]. cbn [append nocharb]. rewrite IH.
+  rewrite andb_assoc. reflexivity.
+Qed.
+
+Lemma all_digits_nochar : forall c s, is_digit c = false -> all_digits s = true -> nocharb c s = true.
+Proof.
+  intros c. induction s as [|a r IH]; intros Hc H; [reflexivity|].
+  cbn [all_digits] in H. apply andb_prop in H. destruct H as [H1 H2].
+  cbn [nocharb]. rewrite (digit_not a c H1 Hc). cbn [negb andb]. apply IH; assumption.
+Qed.
+
+Fixpoint last_nonspace (s : string) : bool :=
+  match s with
+  | EmptyString => false
+  | String a EmptyString => negb (is_space a)
+  | String _ r => last_nonspace r
+  end.
+
+Lemma rtrim_id : forall s, last_nonspace s = true -> rtrim s = s.
+Proof.
+  induction s as [|a r IH]; intros H; [reflexivity|].
+  cbn [rtrim]. destruct r as [|b r'].
+  - cbn [last_nonspace] in H. apply negb_true_iff in H. cbn [rtrim]. rewrite H. reflexivity.
+  - assert (last_nonspace (String b r') = true) as H' by exact H.
+    rewrite (IH H'). rewrite andb_false_r. reflexivity.
+Qed.
+
+Lemma digit_not_space : forall a, is_digit a = true -> is_space a = false.
+Proof.
+  intros a H. unfold is_digit, is_space in *. apply andb_prop in H. destruct H as [H1 H2].
+  apply N.leb_le in H1. apply N.leb_le in H2.
+  destruct ((9 <=? N_of_ascii a)%N && (N_of_ascii a <=? 13)%N) eqn:E.
+  - apply andb_prop in E. destruct E as [_ E]. apply N.leb_le in E. lia.
+  - destruct (N.eqb_spec (N_of_ascii a) 32); [lia|reflexivity].
+Qed.
+
+Lemma all_digits_last : forall s, all_digits s = true -> s <> EmptyString -> last_nonspace s = true.
+Proof.
+  induction s as [|a r IH]; intros H Hne; [contradiction|].
+  cbn [all_digits] in H. apply andb_prop in H. destruct H as [H1 H2]. destruct r as [|b r'].
+  - cbn [last_nonspace]. rewrite (digit_not_space a H1). reflexivity.
+  - apply IH; [exact H2|discriminate].
+Qed.
+
+Lemma trim_digits : forall s, all_digits s = true -> s <> EmptyString -> trim s = s.
+Proof.
+  intros s H Hne. unfold trim. destruct s as [|a r]; [contradiction|].
+  cbn [all_digits] in H. pose proof H as H0. apply andb_prop in H. destruct H as [H1 H2].
+  cbn [ltrim]. rewrite (digit_not_space a H1). apply rtrim_id. apply all_digits_last; [exact H0|discriminate].
+Qed.
+
+(* decimal numbers *)
+Lemma all_digits_uint : forall d, all_digits (NilEmpty.string_of_uint d) = true.
+Proof. induction d; cbn [NilEmpty.string_of_uint all_digits]; try rewrite IHd; reflexivity. Qed.
+
+Lemma to_uint_nonnil : forall n, N.to_uint n <> Decimal.Nil.
+Proof.
+  intros n H. pose proof (DecimalN.Unsigned.of_to n) as E. rewrite H in E. cbn in E.
+  pose proof (DecimalN.Unsigned.to_of (Decimal.Nil)) as F.
+  destruct n; [cbn in H; discriminate|]. cbn in H. unfold Pos.to_uint in H.
+  pose proof (DecimalPos.Unsigned.to_uint_nonnil p). contradiction.
+Qed.
+
+Lemma dec_of_digits : forall n, all_digits (dec_of n) = true.
+Proof. intros n. apply all_digits_uint. Qed.
+
+Lemma dec_of_nonempty : forall n, dec_of n <> EmptyString.
+Proof.
+  intros n. unfold dec_of. pose proof (to_uint_nonnil (Z.to_N n)) as H.
+  destruct (N.to_uint (Z.to_N n)); cbn; try discriminate. contradiction.
+Qed.
+
+Lemma uint_val_dec : forall n, 0 <= n -> uint_val (dec_of n) = Some n.
+Proof.
+  intros n Hn. unfold uint_val, dec_of. rewrite NilEmpty.usu. rewrite DecimalN.Unsigned.of_to.
+  rewrite Z2N.id by lia. reflexivity.
+Qed.
+
+Lemma atoi_dec : forall n, 0 <= n < two63 -> atoi (dec_of n) = Some n.
+Proof.
+  intros n Hn. unfold atoi.
+  pose proof (dec_of_digits n) as D. pose proof (dec_of_nonempty n) as NE.
+  destruct (dec_of n) as [|a r] eqn:E; [contradiction|].
+  assert (a <> "-"%char /\ a <> "+"%char) as [N1 N2].
+  { cbn [all_digits] in D. apply andb_prop in D. destruct D as [D _]. split; intros ->; discriminate D. }
+  assert ((let '(neg, body) := match String a r with
+            | String "-" r0 => (true, r0) | String "+" r0 => (false, r0) | _ => (false, String a r) end
+           in (neg, body)) = (false, String a r)) as S.
+  { destruct a as [[] [] [] [] [] [] [] []]; try reflexivity; exfalso; auto. }
+  destruct a as [[] [] [] [] [] [] [] []]; try (exfalso; auto; fail);
+    rewrite D; rewrite <- E; rewrite (uint_val_dec n) by lia; unfold two63 in *;
+    rewrite (proj2 (Z.leb_le _ _)) by lia; rewrite (proj2 (Z.ltb_lt _ _)) by lia; reflexivity.
+Qed.
+
+Lemma parse_uint_dec : forall n, 0 <= n < two64 -> parse_uint (dec_of n) = Some n.
+Proof.
+  intros n Hn. unfold parse_uint. pose proof (dec_of_nonempty n) as NE.
+  destruct (dec_of n) as [|a r] eqn:E; [contradiction|]. rewrite <- E.
+  rewrite (dec_of_digits n). rewrite (uint_val_dec n) by lia.
+  rewrite (proj2 (Z.ltb_lt _ _)) by lia. reflexivity.
+Qed.
+
+(* ---------------------------------------------------------------- whole files *)
+Definition nlc : ascii := ascii_of_N 10.
+
+Lemma append_nil_r : forall s : string, s ++ "" = s.
+Proof. induction s as [|a r IH]; cbn [append]; [reflexivity|rewrite IH; reflexivity]. Qed.
+
+Lemma render_no_nl : forall k t, valid t -> nocharb nlc (render_time k t) = true.
+Proof.
+  intros k t V. ranges t V. unfold render_time, d4, d2, d9, d3', nlc.
+  destruct (Z.eqb k 2); [|destruct (Z.eqb k 0)]; cbn [append nocharb];
+    rewrite !(fun e H => digit_not (dch e) (ascii_of_N 10) (dch_digit e H) eq_refl);
+    try reflexivity; Z.div_mod_to_equations; lia.
+Qed.
+
+Lemma render2_no_eq : forall t, valid t -> nocharb "="%char (render_time 2 t) = true.
+Proof.
+  intros t V. ranges t V. unfold render_time, d4, d2, d3'. cbn [Z.eqb Pos.eqb append nocharb].
+  rewrite !(fun e H => digit_not (dch e) "="%char (dch_digit e H) eq_refl);
+    try reflexivity; Z.div_mod_to_equations; lia.
+Qed.
+
+Lemma render_last : forall k t, last_nonspace (render_time k t) = true.
+Proof.
+  intros k t. unfold render_time, d4, d2, d9, d3'.
+  destruct (Z.eqb k 2); [|destruct (Z.eqb k 0)]; reflexivity.
+Qed.
+
+Lemma render_first : forall k t r, valid t -> ltrim (render_time k t ++ r) = render_time k t ++ r.
+Proof.
+  intros k t r V. ranges t V. unfold render_time, d4.
+  assert (is_space (dch (t_year t / 1000)) = false) as E by (apply digit_not_space, dch_digit; divlia).
+  destruct (Z.eqb k 2); cbn [append ltrim]; rewrite E; reflexivity.
+Qed.
+
+Lemma trim_render : forall k t, valid t -> trim (String " " (render_time k t)) = render_time k t.
+Proof.
+  intros k t V. unfold trim. cbn [ltrim is_space].
+  change (is_space " ") with true. cbv iota.
+  pose proof (render_first k t "" V) as F. rewrite !append_nil_r in F. rewrite F.
+  apply rtrim_id. apply render_last.
+Qed.
+
+Lemma trim_sp_digits : forall s, all_digits s = true -> s <> EmptyString -> trim (String " " s) = s.
+Proof. intros s H Hne. change (trim (String " " s)) with (trim s). apply trim_digits; assumption. Qed.
+
+Lemma nochar_sp_dec : forall c n, is_digit c = false -> Ascii.eqb " " c = false ->
+  nocharb c (String " " (dec_of n)) = true.
+Proof.
+  intros c n Hc Hs. cbn [nocharb]. rewrite Hs. cbn [negb andb].
+  apply all_digits_nochar; [exact Hc|apply dec_of_digits].
+Qed.
+
+(* decodeChangesetState reads the changeset state file of the planet server *)
+Theorem decode_changeset_planet : forall k seq t, (k = 0 \/ k = 1) -> valid t -> 0 <= seq < two64 ->
+  decode_changeset planet_formats nlc ":" 1 2 (render_changeset k seq t) = DOk (seq, t).
+Proof.
+  intros k seq t Hk V Hseq. unfold decode_changeset, render_changeset.
+  assert (E : "---" ++ nl ++ "last_run: " ++ render_time k t ++ nl ++ "sequence: " ++ dec_of seq ++ nl =
+              "---" ++ String nlc (("last_run" ++ String ":" (String " " (render_time k t)))
+                     ++ String nlc (("sequence" ++ String ":" (String " " (dec_of seq))) ++ String nlc ""))).
+  { unfold nl, nlc. cbn [append]. rewrite <- ?append_assoc_s. cbn [append]. reflexivity. }
+  rewrite E. clear E.
+  rewrite split_app by reflexivity.
+  rewrite split_app.
+  2:{ rewrite nocharb_app. cbn [nocharb]. rewrite render_no_nl by exact V. reflexivity. }
+  rewrite split_app.
+  2:{ rewrite nocharb_app. cbn [nocharb]. rewrite (all_digits_nochar nlc (dec_of seq)) by (try reflexivity; apply dec_of_digits). reflexivity. }
+  cbn [nth_error].
+  rewrite split_app by reflexivity. cbn [tl]. rewrite join_split.
+  rewrite trim_render by exact V.
+  rewrite decode_time_planet by (try exact V; destruct Hk as [-> | ->]; auto).
+  rewrite split_app by reflexivity.
+  rewrite split_none by (apply nochar_sp_dec; reflexivity).
+  rewrite trim_sp_digits by (try apply dec_of_digits; apply dec_of_nonempty).
+  rewrite parse_uint_dec by exact Hseq. reflexivity.
+Qed.
+
+Definition planet_keys : list (string * field) :=
+  [("sequenceNumber", FSeq); ("txnMax", FTxnMax); ("txnMaxQueried", FTxnMaxQ); ("timestamp", FTime)].
+
+Lemma trim_render0 : forall k t, valid t -> trim (render_time k t) = render_time k t.
+Proof.
+  intros k t V. unfold trim. pose proof (render_first k t "" V) as F. rewrite !append_nil_r in F.
+  rewrite F. apply rtrim_id. apply render_last.
+Qed.
+
+Lemma step_comment : forall fmts st c, step_line planet_keys fmts "=" st (String "#" c) = DOk st.
+Proof.
+  intros fmts st c. unfold step_line. cbn [split_on Ascii.eqb Bool.eqb andb].
+  destruct (split_on "=" c) as [|p ps]; reflexivity.
+Qed.
+
+Lemma step_unknown : forall fmts st key v,
+  nocharb "=" key = true -> assoc_key key planet_keys = None ->
+  step_line planet_keys fmts "=" st (key ++ String "=" v) = DOk st.
+Proof.
+  intros fmts st key v Hk Ha. unfold step_line. rewrite split_app by exact Hk. rewrite Ha. reflexivity.
+Qed.
+
+Lemma step_int : forall fmts st key f n,
+  nocharb "=" key = true -> assoc_key key planet_keys = Some f -> 0 <= n < two63 ->
+  step_line planet_keys fmts "=" st (key ++ String "=" (dec_of n)) =
+  match f with
+  | FSeq => DOk {| i_seq := n; i_time := i_time st; i_txn := i_txn st; i_txnq := i_txnq st |}
+  | FTxnMax => DOk {| i_seq := i_seq st; i_time := i_time st; i_txn := n; i_txnq := i_txnq st |}
+  | FTxnMaxQ => DOk {| i_seq := i_seq st; i_time := i_time st; i_txn := i_txn st; i_txnq := n |}
+  | FTime => step_line planet_keys fmts "=" st (key ++ String "=" (dec_of n))
+  end.
+Proof.
+  intros fmts st key f n Hk Ha Hn. destruct f; try reflexivity;
+    unfold step_line; rewrite split_app by exact Hk; rewrite Ha;
+    rewrite split_none by (apply all_digits_nochar; [reflexivity|apply dec_of_digits]);
+    rewrite trim_digits by (try apply dec_of_digits; apply dec_of_nonempty);
+    rewrite atoi_dec by exact Hn; try reflexivity.
+  rewrite Z.mod_small by (unfold two63, two64 in *; lia). reflexivity.
+Qed.
+
+Lemma step_time : forall st t, valid t -> t_nsec t = 0 ->
+  step_line planet_keys planet_formats "=" st ("timestamp" ++ String "=" (render_time 2 t)) =
+  DOk {| i_seq := i_seq st; i_time := t; i_txn := i_txn st; i_txnq := i_txnq st |}.
+Proof.
+  intros st t V Hns. unfold step_line. rewrite split_app by reflexivity.
+  change (assoc_key "timestamp" planet_keys) with (Some FTime). cbv iota.
+  rewrite split_none by (apply render2_no_eq; exact V).
+  rewrite trim_render0 by exact V.
+  rewrite (decode_time_planet 2 t V (or_intror (or_intror (conj eq_refl Hns)))). reflexivity.
+Qed.
+
+(* decodeIntervalState reads the minute/hour/day state file of the planet server *)
+Theorem decode_interval_planet : forall comment seq t txn txnq ready active,
+  valid t -> t_nsec t = 0 -> 0 <= seq < two63 -> 0 <= txn < two63 -> 0 <= txnq < two63 ->
+  nocharb nlc comment = true -> nocharb nlc ready = true -> nocharb nlc active = true ->
+  decode_interval planet_keys planet_formats nlc "=" (render_interval comment seq t txn txnq ready active)
+  = DOk {| i_seq := seq; i_time := t; i_txn := txn; i_txnq := txnq |}.
+Proof.
+  intros comment seq t txn txnq ready active V Hns Hseq Htxn Htxnq Hc Hr Ha.
+  unfold decode_interval, render_interval.
+  assert (E : "#" ++ comment ++ nl ++ "txnMaxQueried=" ++ dec_of txnq ++ nl ++ "sequenceNumber=" ++ dec_of seq ++ nl
+                ++ "timestamp=" ++ render_time 2 t ++ nl ++ "txnReadyList=" ++ ready ++ nl
+                ++ "txnMax=" ++ dec_of txn ++ nl ++ "txnActiveList=" ++ active ++ nl =
+              String "#" comment ++ String nlc (("txnMaxQueried" ++ String "=" (dec_of txnq))
+                ++ String nlc (("sequenceNumber" ++ String "=" (dec_of seq))
+                ++ String nlc (("timestamp" ++ String "=" (render_time 2 t))
+                ++ String nlc (("txnReadyList" ++ String "=" ready)
+                ++ String nlc (("txnMax" ++ String "=" (dec_of txn))
+                ++ String nlc (("txnActiveList" ++ String "=" active) ++ String nlc ""))))))).
+  { unfold nl, nlc. cbn [append]. rewrite <- ?append_assoc_s. cbn [append]. reflexivity. }
+  rewrite E. clear E.
+  assert (Hd : forall n, nocharb nlc (dec_of n) = true)
+    by (intros n; apply all_digits_nochar; [reflexivity|apply dec_of_digits]).
+  rewrite split_app by (cbn [nocharb]; rewrite Hc; reflexivity).
+  rewrite split_app by (rewrite nocharb_app; cbn [nocharb]; rewrite Hd; reflexivity).
+  rewrite split_app by (rewrite nocharb_app; cbn [nocharb]; rewrite Hd; reflexivity).
+  rewrite split_app by (rewrite nocharb_app; cbn [nocharb]; rewrite render_no_nl by exact V; reflexivity).
+  rewrite split_app by (rewrite nocharb_app; cbn [nocharb]; rewrite Hr; reflexivity).
+  rewrite split_app by (rewrite nocharb_app; cbn [nocharb]; rewrite Hd; reflexivity).
+  rewrite split_app by (rewrite nocharb_app; cbn [nocharb]; rewrite Ha; reflexivity).
+  cbn [fold_lines].
+  rewrite step_comment.
+  rewrite (step_int _ _ "txnMaxQueried" FTxnMaxQ txnq) by (try reflexivity; exact Htxnq).
+  rewrite (step_int _ _ "sequenceNumber" FSeq seq) by (try reflexivity; exact Hseq).
+  rewrite step_time by assumption.
+  rewrite step_unknown by reflexivity.
+  rewrite (step_int _ _ "txnMax" FTxnMax txn) by (try reflexivity; exact Htxn).
+  rewrite step_unknown by reflexivity.
+  reflexivity.
+Qed.
+
+(* ---------------------------------------------------------------- damaged files: a state is
+   never made of garbage.  Whatever the bytes are, if decodeIntervalState returns a state then
+   its sequence number is the (valid) number of the LAST sequenceNumber line, or 0 when there
+   is no such line, and likewise for the time stamp. *)
+Definition field_eqb (a b : field) : bool :=
+  match a, b with FSeq, FSeq | FTxnMax, FTxnMax | FTxnMaxQ, FTxnMaxQ | FTime, FTime => true | _, _ => false end.
+
+Section Damaged.
+  Variable keys : list (string * field).
+  Variable fmts : list string.
+  Variable kv : ascii.
+
+  (* the trimmed value of a line for field f, if the line is one for f *)
+  Definition line_val (f : field) (l : string) : option string :=
+    match split_on kv l with
+    | p0 :: p1 :: _ =>
+        match assoc_key p0 keys with
+        | Some f' => if field_eqb f' f then Some (trim p1) else None
+        | None => None
+        end
+    | _ => None
+    end.
+
+  Fixpoint last_val (f : field) (ls : list string) : option string :=
+    match ls with
+    | [] => None
+    | l :: r => match last_val f r with Some v => Some v | None => line_val f l end
+    end.
+
+  Lemma step_seq : forall st l st', step_line keys fmts kv st l = DOk st' ->
+    match line_val FSeq l with
+    | Some v => exists n, atoi v = Some n /\ i_seq st' = n mod two64
+    | None => i_seq st' = i_seq st
+    end.
+  Proof.
+    intros st l st' H. unfold step_line in H. unfold line_val.
+    destruct (split_on kv l) as [|p0 rest]; [inversion H; reflexivity|].
+    destruct (assoc_key p0 keys) as [f|].
+    - destruct rest as [|p1 rest']; [discriminate|].
+      destruct f; cbn [field_eqb].
+      + destruct (atoi (trim p1)) as [n|] eqn:A; [|discriminate]. inversion H; subst. cbn. exists n. split; reflexivity.
+      + destruct (atoi (trim p1)); [|discriminate]. inversion H; subst. reflexivity.
+      + destruct (atoi (trim p1)); [|discriminate]. inversion H; subst. reflexivity.
+      + destruct (decode_time fmts (trim p1)); [|discriminate]. inversion H; subst. reflexivity.
+    - inversion H; subst. destruct rest; reflexivity.
+  Qed.
+
+  Lemma step_tm : forall st l st', step_line keys fmts kv st l = DOk st' ->
+    match line_val FTime l with
+    | Some v => decode_time fmts v = Some (i_time st')
+    | None => i_time st' = i_time st
+    end.
+  Proof.
+    intros st l st' H. unfold step_line in H. unfold line_val.
+    destruct (split_on kv l) as [|p0 rest]; [inversion H; reflexivity|].
+    destruct (assoc_key p0 keys) as [f|].
+    - destruct rest as [|p1 rest']; [discriminate|].
+      destruct f; cbn [field_eqb].
+      + destruct (atoi (trim p1)); [|discriminate]. inversion H; subst. reflexivity.
+      + destruct (atoi (trim p1)); [|discriminate]. inversion H; subst. reflexivity.
+      + destruct (atoi (trim p1)); [|discriminate]. inversion H; subst. reflexivity.
+      + destruct (decode_time fmts (trim p1)) as [t|] eqn:D; [|discriminate]. inversion H; subst. reflexivity.
+    - inversion H; subst. destruct rest; reflexivity.
+  Qed.
+
+  Lemma fold_seq : forall ls st0 st, fold_lines keys fmts kv ls st0 = DOk st ->
+    match last_val FSeq ls with
+    | Some v => exists n, atoi v = Some n /\ i_seq st = n mod two64
+    | None => i_seq st = i_seq st0
+    end.
+  Proof.
+    induction ls as [|l r IH]; intros st0 st H.
+    - cbn in H. inversion H. reflexivity.
+    - cbn [fold_lines] in H. destruct (step_line keys fmts kv st0 l) as [st1| |] eqn:S; try discriminate.
+      specialize (IH st1 st H). cbn [last_val].
+      destruct (last_val FSeq r) as [v|]; [exact IH|].
+      pose proof (step_seq st0 l st1 S) as P. destruct (line_val FSeq l) as [v|].
+      + destruct P as (n & A & E). exists n. split; [exact A|congruence].
+      + congruence.
+  Qed.
+
+  Lemma fold_tm : forall ls st0 st, fold_lines keys fmts kv ls st0 = DOk st ->
+    match last_val FTime ls with
+    | Some v => decode_time fmts v = Some (i_time st)
+    | None => i_time st = i_time st0
+    end.
+  Proof.
+    induction ls as [|l r IH]; intros st0 st H.
+    - cbn in H. inversion H. reflexivity.
+    - cbn [fold_lines] in H. destruct (step_line keys fmts kv st0 l) as [st1| |] eqn:S; try discriminate.
+      specialize (IH st1 st H). cbn [last_val].
+      destruct (last_val FTime r) as [v|]; [exact IH|].
+      pose proof (step_tm st0 l st1 S) as P. destruct (line_val FTime l) as [v|]; congruence.
+  Qed.
+End Damaged.
+
+Theorem decode_interval_no_garbage : forall keys fmts ls kv data st,
+  decode_interval keys fmts ls kv data = DOk st ->
+  (match last_val keys kv FSeq (split_on ls data) with
+   | Some v => exists n, atoi v = Some n /\ i_seq st = n mod two64
+   | None => i_seq st = 0
+   end) /\
+  (match last_val keys kv FTime (split_on ls data) with
+   | Some v => decode_time fmts v = Some (i_time st)
+   | None => i_time st = zero_tm
+   end).
+Proof.
+  intros keys fmts ls kv data st H. unfold decode_interval in H. split.
+  - exact (fold_seq keys fmts kv _ _ _ H).
+  - exact (fold_tm keys fmts kv _ _ _ H).
+Qed.
+
+(* the same for decodeChangesetState: a state comes from the second and third line only, and
+   both must read as a time and as an unsigned number *)
+Theorem decode_changeset_no_garbage : forall fmts ls kv data n t,
+  decode_changeset fmts ls kv 1 2 data = DOk (n, t) ->
+  exists l1 l2 p, nth_error (split_on ls data) 1 = Some l1 /\ nth_error (split_on ls data) 2 = Some l2 /\
+    decode_time fmts (trim (join kv (tl (split_on kv l1)))) = Some t /\
+    nth_error (split_on kv l2) 1 = Some p /\ parse_uint (trim p) = Some n.
+Proof.
+  intros fmts ls kv data n t H. unfold decode_changeset in H.
+  destruct (nth_error (split_on ls data) 1) as [l1|]; [|discriminate].
+  destruct (decode_time fmts (trim (join kv (tl (split_on kv l1))))) as [t'|] eqn:D; [|discriminate].
+  destruct (nth_error (split_on ls data) 2) as [l2|]; [|discriminate].
+  destruct (split_on kv l2) as [|p0 [|p1 rest]] eqn:S; try discriminate.
+  destruct (parse_uint (trim p1)) as [m|] eqn:U; [|discriminate]. inversion H; subst.
+  exists l1, l2, p1. split; [reflexivity|]. split; [reflexivity|]. split; [exact D|]. split; [rewrite S; reflexivity|exact U].
+Qed.
+
+(* time stamps: whatever decodeTime accepts is a real calendar time *)
+Lemma parse_elems_day : forall f es s t0 t, parse_elems f es s t0 = Some t ->
+  1 <= t_day t <= days_in (t_mon t) (t_year t).
+Proof.
+  induction f as [|f IH]; intros es s t0 t H; [discriminate|].
+  cbn [parse_elems] in H. destruct es as [|e r].
+  - destruct s; [|discriminate].
+    destruct ((1 <=? t_day t0) && (t_day t0 <=? days_in (t_mon t0) (t_year t0)))%Z eqn:B; [|discriminate].
+    inversion H; subst. lia.
+  - destruct e.
+    + destruct (get4 s) as [[v s']|]; [apply (IH _ _ _ _ H)|discriminate].
+    + destruct (getnum true s) as [[v s']|]; [|discriminate]. destruct ((1 <=? v) && (v <=? 12))%Z; [apply (IH _ _ _ _ H)|discriminate].
+    + destruct (getnum true s) as [[v s']|]; [apply (IH _ _ _ _ H)|discriminate].
+    + destruct (getnum false s) as [[v s']|]; [|discriminate]. destruct (v <? 24)%Z; [apply (IH _ _ _ _ H)|discriminate].
+    + destruct (getnum true s) as [[v s']|]; [|discriminate]. destruct (v <? 60)%Z; [apply (IH _ _ _ _ H)|discriminate].
+    + destruct (getnum true s) as [[v s']|]; [|discriminate]. destruct (v <? 60)%Z; [|discriminate].
+      destruct r as [|e' r']; [|destruct e'];
+        try (destruct (frac_opt s') as [[ns s'']|]; apply (IH _ _ _ _ H)); apply (IH _ _ _ _ H).
+    + destruct (frac_opt s) as [[ns s']|]; apply (IH _ _ _ _ H).
+    + destruct (Ascii.eqb c " ").
+      * destruct s as [|a s']; [apply (IH _ _ _ _ H)|]. destruct (Ascii.eqb a " "); [apply (IH _ _ _ _ H)|discriminate].
+      * destruct s as [|a s']; [discriminate|]. destruct (Ascii.eqb a c); [apply (IH _ _ _ _ H)|discriminate].
+Qed.
+
+Lemma parse_layout_day : forall l s t, parse_layout l s = Some t ->
+  1 <= t_day t <= days_in (t_mon t) (t_year t).
+Proof.
+  intros l s t. unfold parse_layout. destruct (layout_elems l) as [es|]; [|discriminate].
+  generalize (S (List.length es)). intros f H. exact (parse_elems_day f es s start_tm t H).
+Qed.
+
+Lemma decode_time_cons : forall l r s,
+  decode_time (l :: r) s = match parse_layout l s with Some t0 => Some t0 | None => decode_time r s end.
+Proof. reflexivity. Qed.
+
+Theorem decode_time_real_day : forall fmts s t, decode_time fmts s = Some t ->
+  1 <= t_day t <= days_in (t_mon t) (t_year t).
+Proof.
+  induction fmts as [|l r IH]; intros s t H.
+  - discriminate H.
+  - rewrite decode_time_cons in H.
+    destruct (parse_layout l s) as [t'|] eqn:P.
+    + injection H as ->. exact (parse_layout_day l s t P).
+    + exact (IH s t H).
 Qed.
